@@ -419,7 +419,7 @@ class ReferenceRepresentation(Representation):
         """
         if k == 0:
             # return a row of zeros
-            return numpy.zeros([1, len(self._indices[0])])
+            return numpy.zeros([1, len(self.simplicesOfOrder(0))])
         else:
             if k > self.maxOrder():
                 # return a null boundary operator
